@@ -5,7 +5,12 @@
 //!   ur <hex> <step>...      real unchecked reader; step := (read <tt>) | (get <0|1> <len>) | (msg)
 //!   a <bin|le|cmp> (<ev>...) <step>...   real async protocol over a scripted AsyncRead; ev := p | <hex chunk>
 //!        step := (read <tt>) | (skip <tt>) | (skipd <tt> <d>) | (msg) | (sb) | (se) | (fb) | (fe)
-//! Streams: C11, C12
+//!   se <bin|cmp> <val>                 pilota's bytes for the value (compared with the reference's canonical encoding)
+//!   sr <bin|cmp> <val> <hex>           a legal alternative encoding (reference encoder + choice bits) fed to the real reader
+//!   s  <bin|le|cmp> <hex> <step>...    steps of `a` plus (lb) (setb) (mb) on the in-memory protocol
+//!   sm <bin|cmp> <name> <mt> <seq>     pilota's message envelope bytes
+//!   ax <bin|cmp> <hex> / axw <bin|cmp> <msg> <kind>   ApplicationException decode / encode
+//! Streams: C11, C12, C03
 use std::io::Write;
 
 use bytes::{BufMut, Bytes, BytesMut};
@@ -31,6 +36,7 @@ pub fn exec(verb: &str, items: &[Sexp], o: &mut Oracle) -> Option<String> {
         "uw" => Some(uw(items, o).unwrap_or_else(|| "bad-request".into())),
         "ur" => Some(ur(items, o).unwrap_or_else(|| "bad-request".into())),
         "a" => Some(av(items, o).unwrap_or_else(|| "bad-request".into())),
+        "se" | "sr" | "s" | "sm" | "ax" | "axw" => Some(c03(verb, items, o).unwrap_or_else(|| "bad-request".into())),
         _ => None,
     }
 }
@@ -314,7 +320,7 @@ fn block_on<F: Future>(f: F) -> F::Output {
 }
 
 #[derive(Clone, Copy)]
-enum AStep { Read(TT), Skip(TT), SkipD(TT, i8), Msg, Sb, Se, Fb, Fe }
+enum AStep { Read(TT), Skip(TT), SkipD(TT, i8), Msg, Sb, Se, Fb, Fe, Lb, Setb, Mb }
 
 fn asteps(xs: &[Sexp]) -> Option<Vec<AStep>> {
     xs.iter().map(|x| {
@@ -325,6 +331,7 @@ fn asteps(xs: &[Sexp]) -> Option<Vec<AStep>> {
             "skip" => AStep::Skip(tt(1)?),
             "skipd" => AStep::SkipD(tt(1)?, l.get(2)?.atom()?.parse().ok()?),
             "msg" => AStep::Msg, "sb" => AStep::Sb, "se" => AStep::Se, "fb" => AStep::Fb, "fe" => AStep::Fe,
+            "lb" => AStep::Lb, "setb" => AStep::Setb, "mb" => AStep::Mb,
             _ => return None,
         })
     }).collect()
@@ -396,6 +403,9 @@ async fn run_async<P: TAsyncInputProtocol>(p: &mut P, steps: &[AStep]) -> (Vec<S
             AStep::Se => p.read_struct_end().await.map(|_| "se".to_string()),
             AStep::Fb => p.read_field_begin().await.map(|f| format!("(field {} {})", TT::of_p(f.field_type).name(), f.id.unwrap_or(0))),
             AStep::Fe => p.read_field_end().await.map(|_| "fe".to_string()),
+            AStep::Lb => p.read_list_begin().await.map(|l| format!("(list {} {})", TT::of_p(l.element_type).name(), l.size)),
+            AStep::Setb => p.read_set_begin().await.map(|l| format!("(set {} {})", TT::of_p(l.element_type).name(), l.size)),
+            AStep::Mb => p.read_map_begin().await.map(|m| format!("(map {} {} {})", TT::of_p(m.key_type).name(), TT::of_p(m.value_type).name(), m.size)),
         };
         match r { Ok(s) => items.push(s), Err(e) => return (items, Some(err_class(&e))) }
     }
@@ -415,6 +425,9 @@ fn run_sync<P: TInputProtocol>(p: &mut P, steps: &[AStep]) -> (Vec<String>, Opti
             AStep::Se => p.read_struct_end().map(|_| "se".to_string()),
             AStep::Fb => p.read_field_begin().map(|f| format!("(field {} {})", TT::of_p(f.field_type).name(), f.id.unwrap_or(0))),
             AStep::Fe => p.read_field_end().map(|_| "fe".to_string()),
+            AStep::Lb => p.read_list_begin().map(|l| format!("(list {} {})", TT::of_p(l.element_type).name(), l.size)),
+            AStep::Setb => p.read_set_begin().map(|l| format!("(set {} {})", TT::of_p(l.element_type).name(), l.size)),
+            AStep::Mb => p.read_map_begin().map(|m| format!("(map {} {} {})", TT::of_p(m.key_type).name(), TT::of_p(m.value_type).name(), m.size)),
         };
         match r { Ok(s) => items.push(s), Err(e) => return (items, Some(err_class(&e))) }
     }
@@ -467,6 +480,174 @@ fn av(items: &[Sexp], o: &mut Oracle) -> Option<String> {
     Some(match aerr {
         None => format!("ok {} pulled={}", if aitems.is_empty() { "-".into() } else { aitems.join(" ") }, pulled),
         Some(c) => format!("{} after={}", c, aitems.len()),
+    })
+}
+
+// ------------------------------------------------------------------------------------------ C03 spec conformance
+
+use pilota::thrift::{ApplicationException, ApplicationExceptionKind, Message};
+
+/// choices of the reference encoder among the legal forms
+pub enum Choices { Canon, Rand(Rng), AllLong, AllShort }
+impl Choices {
+    /// take the non-canonical alternative?
+    fn flip(&mut self) -> bool { match self { Choices::Rand(r) => r.chance(1, 2), Choices::AllShort => true, _ => false } }
+    fn byte(&mut self) -> u8 { match self { Choices::Rand(r) => r.next() as u8, _ => 0xFF } }
+    fn drawing(&self) -> bool { !matches!(self, Choices::Canon) }
+}
+
+fn bin_code(t: TT) -> u8 { match t { TT::Bool => 2, TT::I8 => 3, TT::Double => 4, TT::I16 => 6, TT::I32 => 8, TT::I64 => 10, TT::Binary => 11, TT::Struct => 12, TT::Map => 13, TT::Set => 14, TT::List => 15, TT::Uuid => 16, TT::Stop => 0, TT::Void => 1 } }
+fn cmp_code(t: TT) -> u8 { match t { TT::Bool => 1, TT::I8 => 3, TT::I16 => 4, TT::I32 => 5, TT::I64 => 6, TT::Double => 7, TT::Binary => 8, TT::List => 9, TT::Set => 10, TT::Map => 11, TT::Struct => 12, TT::Uuid => 13, _ => 0 } }
+
+/// an independent small reference encoder for the binary protocol, written from the spec facts
+fn ref_bin(v: &Val, ch: &mut Choices, out: &mut Vec<u8>) {
+    match v {
+        Val::Bool(b) => out.push(if !*b { 0 } else if ch.flip() { ch.byte().max(1) } else { 1 }),
+        Val::I8(n) => out.push(*n as u8),
+        Val::I16(n) => out.extend(n.to_be_bytes()),
+        Val::I32(n) => out.extend(n.to_be_bytes()),
+        Val::I64(n) => out.extend(n.to_be_bytes()),
+        Val::Dbl(b) => out.extend(b.to_be_bytes()),
+        Val::Bin(b) => { out.extend((b.len() as i32).to_be_bytes()); out.extend(b); }
+        Val::Uuid(u) => out.extend(u),
+        Val::Struct(fs) => { for (id, x) in fs { out.push(bin_code(x.tt())); out.extend(id.to_be_bytes()); ref_bin(x, ch, out); } out.push(0); }
+        Val::List(t, xs) | Val::Set(t, xs) => { out.push(bin_code(*t)); out.extend((xs.len() as i32).to_be_bytes()); for x in xs { ref_bin(x, ch, out); } }
+        Val::Map(k, t, kvs) => { out.push(bin_code(*k)); out.push(bin_code(*t)); out.extend((kvs.len() as i32).to_be_bytes()); for (a, b) in kvs { ref_bin(a, ch, out); ref_bin(b, ch, out); } }
+    }
+}
+
+fn uleb(mut n: u64, out: &mut Vec<u8>) { loop { if n < 128 { out.push(n as u8); return; } out.push((n % 128) as u8 | 0x80); n /= 128; } }
+fn zz(n: i64) -> u64 { if n >= 0 { 2 * n as u64 } else { (2 * (-(n as i128)) - 1) as u64 } }
+
+fn ref_cmp_hdr(last: i16, code: u8, id: i16, short_max: i32, ch: &mut Choices, out: &mut Vec<u8>) {
+    let d = id as i32 - last as i32;
+    let fits = d >= 1 && d <= 15;
+    let short = if ch.drawing() { fits && ch.flip() } else { d >= 1 && d <= short_max };
+    if short { out.push(((d as u8) << 4) | code); } else { out.push(code); uleb(zz(id as i64), out); }
+}
+fn ref_cmp_elem(t: TT, ch: &mut Choices) -> u8 { if t == TT::Bool && ch.flip() { 2 } else { cmp_code(t) } }
+
+/// … and for the compact protocol (`short_max`: canonical policy for field headers when no choices are drawn)
+fn ref_cmp(v: &Val, short_max: i32, ch: &mut Choices, out: &mut Vec<u8>) {
+    match v {
+        Val::Bool(b) => out.push(if *b { 1 } else { 2 }),
+        Val::I8(n) => out.push(*n as u8),
+        Val::I16(n) => uleb(zz(*n as i64), out),
+        Val::I32(n) => uleb(zz(*n as i64), out),
+        Val::I64(n) => uleb(zz(*n), out),
+        Val::Dbl(b) => out.extend(b.to_le_bytes()),
+        Val::Bin(b) => { uleb(b.len() as u64, out); out.extend(b); }
+        Val::Uuid(u) => out.extend(u),
+        Val::Struct(fs) => {
+            let mut last = 0i16;
+            for (id, x) in fs {
+                match x { Val::Bool(b) => ref_cmp_hdr(last, if *b { 1 } else { 2 }, *id, short_max, ch, out),
+                          _ => { ref_cmp_hdr(last, cmp_code(x.tt()), *id, short_max, ch, out); ref_cmp(x, short_max, ch, out); } }
+                last = *id;
+            }
+            out.push(0);
+        }
+        Val::List(t, xs) | Val::Set(t, xs) => {
+            let c = ref_cmp_elem(*t, ch);
+            if xs.len() <= 14 { out.push(((xs.len() as u8) << 4) | c); } else { out.push(0xF0 | c); uleb(xs.len() as u64, out); }
+            for x in xs { ref_cmp(x, short_max, ch, out); }
+        }
+        Val::Map(k, t, kvs) => {
+            if kvs.is_empty() { out.push(0); return; }
+            uleb(kvs.len() as u64, out);
+            let (a, b) = (ref_cmp_elem(*k, ch), ref_cmp_elem(*t, ch));
+            out.push((a << 4) | b);
+            for (x, y) in kvs { ref_cmp(x, short_max, ch, out); ref_cmp(y, short_max, ch, out); }
+        }
+    }
+}
+
+pub fn ref_encode(proto: Proto, v: &Val, ch: &mut Choices) -> Vec<u8> {
+    let mut out = vec![];
+    match proto { Proto::Cmp => ref_cmp(v, 14, ch, &mut out), _ => ref_bin(v, ch, &mut out) }
+    out
+}
+
+fn app_kind(k: i32) -> ApplicationExceptionKind { ApplicationExceptionKind::from(k) }
+
+fn c03(verb: &str, items: &[Sexp], o: &mut Oracle) -> Option<String> {
+    let proto = Proto::of(items.get(1)?.atom()?)?;
+    if proto == Proto::UBin { return None; }
+    Some(match verb {
+        "se" => {
+            let v = Val::of_sexp(items.get(2)?)?;
+            let w = match thrift::write_all(proto, BufK::Bm, StrApi::Bytes, &[v.clone()]) { Ok(w) => w, Err(e) => return Some(err_class(&e).into()) };
+            let r = ref_encode(proto, &v, &mut Choices::Canon);
+            if proto != Proto::Le && r != w.bytes { o.fail("C03", format!("pilota wrote {} ; the reference encoder gives {}", hex(&w.bytes), hex(&r))); }
+            let rd = thrift::read_script(proto, &w.bytes, &[ReadStep::Read(v.tt())]);
+            let want = if proto == Proto::Cmp { v.norm_compact().sexp() } else { v.sexp() };
+            if rd.err.is_some() || rd.items.first() != Some(&want) || rd.rem != 0 { o.fail("C03", "pilota does not read back its own bytes".into()); }
+            format!("ok {}", hex(&w.bytes))
+        }
+        "sr" => {
+            let v = Val::of_sexp(items.get(2)?)?;
+            let bytes = unhex(items.get(3)?.atom()?)?;
+            let rd = thrift::read_script(proto, &bytes, &[ReadStep::Read(v.tt())]);
+            let want = if proto == Proto::Cmp { v.norm_compact().sexp() } else { v.sexp() };
+            match rd.err {
+                Some(c) => { o.fail("C03", format!("pilota rejects a legal encoding of {}", want)); format!("{} after=0", c) }
+                None => {
+                    if rd.items[0] != want { o.fail("C03", format!("pilota reads a legal encoding of {} as {}", want, rd.items[0])); }
+                    if rd.rem != 0 { o.fail("C03", format!("{} bytes of a legal encoding left unread", rd.rem)); }
+                    format!("ok {} rem={}", rd.items[0], rd.rem)
+                }
+            }
+        }
+        "s" => {
+            let input = unhex(items.get(2)?.atom()?)?;
+            let steps = asteps(&items[3..])?;
+            let mut b = Bytes::copy_from_slice(&input);
+            let (its, err) = match proto {
+                Proto::Bin => { let mut p = TBinaryProtocol::new(&mut b, false); run_sync(&mut p, &steps) }
+                Proto::Le => { let mut p = TBinaryLeProtocol::new(&mut b, false); run_sync(&mut p, &steps) }
+                _ => { let mut p = TCompactInputProtocol::new(&mut b); run_sync(&mut p, &steps) }
+            };
+            match err { None => format!("ok {} rem={}", if its.is_empty() { "-".into() } else { its.join(" ") }, b.len()), Some(c) => format!("{} after={}", c, its.len()) }
+        }
+        "sm" => {
+            let name = unhex(items.get(2)?.atom()?)?;
+            let mt: u8 = items.get(3)?.atom()?.parse().ok()?;
+            let seq: i32 = items.get(4)?.atom()?.parse().ok()?;
+            msg_type(mt)?;
+            match thrift::write_msg(proto, &name, mt, seq) {
+                Ok((b, _)) => {
+                    match thrift::read_msg(proto, &b) { Ok((n2, m2, s2, 0)) if n2 == name && m2 == mt && s2 == seq => {}, _ => o.fail("C03", "message envelope does not read back".into()) }
+                    format!("ok {}", hex(&b))
+                }
+                Err(e) => err_class(&e).into(),
+            }
+        }
+        "axw" => {
+            let msg = unhex(items.get(2)?.atom()?)?;
+            let kind: i32 = items.get(3)?.atom()?.parse().ok()?;
+            let ex = ApplicationException::new(app_kind(kind), unsafe { faststr::FastStr::from_bytes_unchecked(Bytes::copy_from_slice(&msg)) });
+            let mut b = BytesMut::new();
+            let r = match proto {
+                Proto::Bin => { let mut p = TBinaryProtocol::new(&mut b, false); ex.encode(&mut p) }
+                Proto::Le => { let mut p = TBinaryLeProtocol::new(&mut b, false); ex.encode(&mut p) }
+                _ => { let mut p = pilota::thrift::compact::TCompactOutputProtocol::new(&mut b, false); ex.encode(&mut p) }
+            };
+            if let Err(e) = r { return Some(err_class(&e).into()); }
+            let want = Val::Struct(vec![(1, Val::Bin(msg.clone())), (2, Val::I32(kind))]);
+            if proto != Proto::Le && ref_encode(proto, &want, &mut Choices::Canon) != b.to_vec() { o.fail("C03", "application exception bytes differ from the reference encoding of {1: message, 2: type}".into()); }
+            format!("ok {}", hex(&b))
+        }
+        "ax" => {
+            let input = unhex(items.get(2)?.atom()?)?;
+            let mut b = Bytes::copy_from_slice(&input);
+            let r = match proto {
+                Proto::Bin => { let mut p = TBinaryProtocol::new(&mut b, false); ApplicationException::decode(&mut p) }
+                Proto::Le => { let mut p = TBinaryLeProtocol::new(&mut b, false); ApplicationException::decode(&mut p) }
+                _ => { let mut p = TCompactInputProtocol::new(&mut b); ApplicationException::decode(&mut p) }
+            };
+            match r { Ok(ex) => format!("ok {} {} rem={}", hex(ex.message().as_bytes()), ex.kind().as_i32(), b.len()), Err(e) => format!("{}", err_class(&e)) }
+        }
+        _ => return None,
     })
 }
 
@@ -620,6 +801,109 @@ fn gen_c12(r: &mut Rng, thorough: bool, out: &mut dyn Write) {
     }
 }
 
+fn gen_c03(r: &mut Rng, thorough: bool, out: &mut dyn Write) {
+    let n = |q: usize, t: usize| if thorough { t } else { q };
+    let protos = [Proto::Bin, Proto::Cmp];
+    let emit_val = |out: &mut dyn Write, r: &mut Rng, v: &Val, alts: usize| {
+        for p in protos {
+            let _ = writeln!(out, "se {} {}", p.name(), v.sexp());
+            let mut pols: Vec<Choices> = vec![Choices::Canon, Choices::AllLong, Choices::AllShort];
+            for _ in 0..alts { pols.push(Choices::Rand(Rng(r.next()))); }
+            let mut seen: Vec<Vec<u8>> = vec![];
+            for mut pol in pols {
+                let b = ref_encode(p, v, &mut pol);
+                if seen.contains(&b) { continue; }
+                let _ = writeln!(out, "sr {} {} {}", p.name(), v.sexp(), hex(&b));
+                seen.push(b);
+            }
+        }
+    };
+    // ---- fixed shapes: every alternative the reference admits
+    let fixed: Vec<Val> = vec![
+        Val::Struct(vec![(1, Val::Bool(true)), (16, Val::List(TT::Bool, vec![Val::Bool(false), Val::Bool(true)])), (17, Val::Map(TT::I8, TT::Binary, vec![])),
+                         (-5, Val::Bin(b"hi".to_vec())), (20000, Val::I64(-9_000_000_000)), (20015, Val::Uuid([0xAB; 16]))]),
+        Val::Struct(vec![(15, Val::I8(1)), (30, Val::I8(2)), (31, Val::Bool(false)), (16, Val::I8(4)), (32767, Val::Bool(true)), (-32768, Val::I16(-1))]),
+        Val::Struct(vec![(1, Val::Struct(vec![(5, Val::I32(1))])), (2, Val::Struct(vec![(1, Val::Bool(false))])), (3, Val::Dbl(0x400921fb54442d18))]),
+        Val::Map(TT::Bool, TT::Bool, vec![(Val::Bool(true), Val::Bool(false)), (Val::Bool(false), Val::Bool(true))]),
+        Val::Map(TT::Bool, TT::Bool, vec![]), Val::Map(TT::Binary, TT::Struct, vec![(Val::Bin(vec![1]), Val::Struct(vec![]))]),
+        Val::Set(TT::Bool, vec![Val::Bool(true)]), Val::List(TT::Uuid, vec![Val::Uuid([7; 16])]),
+        Val::Dbl(0), Val::Dbl(0x8000000000000000), Val::Dbl(0x7ff0000000000000), Val::Dbl(0x7ff8000000000001), Val::Dbl(1), Val::Dbl(0x3ff0000000000000),
+        Val::Bin(vec![]), Val::Bin(vec![0; 127]), Val::Bin(vec![0x61; 128]), Val::Bin(vec![0x7a; 16384]),
+    ];
+    for v in &fixed { emit_val(out, r, v, 6); }
+    for k in [0usize, 1, 14, 15, 16, 127, 128, 300] {
+        emit_val(out, r, &Val::List(TT::I8, (0..k).map(|i| Val::I8(i as i8)).collect()), 0);
+        emit_val(out, r, &Val::Set(TT::Bool, (0..k).map(|i| Val::Bool(i % 3 == 0)).collect()), 2);
+        emit_val(out, r, &Val::Map(TT::I16, TT::Bool, (0..k).map(|i| (Val::I16((i as i32 * 129 - 300) as i16), Val::Bool(i % 2 == 0))).collect()), 2);
+    }
+    // ---- integers: all i8; all i16 (thorough) or boundaries + a stride (quick); i32 / i64 / varint boundary classes
+    for i in i8::MIN..=i8::MAX { let v = Val::I8(i); for p in protos { let _ = writeln!(out, "se {} {}", p.name(), v.sexp()); } }
+    let mut i16s: Vec<i16> = vec![];
+    if thorough { i16s.extend(i16::MIN..=i16::MAX); } else {
+        for k in 0..16 { for d in [-1i32, 0, 1] { for s in [1i32, -1] { let x = s * ((1 << k) + d); if x >= -32768 && x <= 32767 { i16s.push(x as i16); } } } }
+        i16s.extend([i16::MIN, i16::MAX, 63, 64, -64, -65, 8191, 8192, -8192, -8193]);
+        i16s.extend((i16::MIN..=i16::MAX).step_by(257));
+    }
+    for i in i16s { let v = Val::I16(i); for p in protos { let _ = writeln!(out, "se {} {}", p.name(), v.sexp()); } if i % 64 == 0 { let _ = writeln!(out, "sr cmp {} {}", v.sexp(), hex(&ref_encode(Proto::Cmp, &v, &mut Choices::Canon))); } }
+    let mut i64s: Vec<i64> = vec![i64::MIN, i64::MAX, i32::MIN as i64, i32::MAX as i64, 0];
+    for k in 0..64u32 { for d in [-1i64, 0, 1] { for s in [1i64, -1] { i64s.push(s.wrapping_mul((1i64 << k.min(62)).wrapping_add(d))); } } }
+    for k in 1..10u32 { let b = 1i64 << (7 * k - 1).min(62); for d in [-1i64, 0, 1] { i64s.push(b + d); i64s.push(-(b + d)); } }   // zig-zag varint length boundaries
+    i64s.sort(); i64s.dedup();
+    for x in &i64s {
+        emit_val(out, r, &Val::I64(*x), 0);
+        if *x >= i32::MIN as i64 && *x <= i32::MAX as i64 { emit_val(out, r, &Val::I32(*x as i32), 0); emit_val(out, r, &Val::Struct(vec![(3, Val::I32(*x as i32))]), 1); }
+    }
+    // ---- every type byte in every header position (256 each)
+    for b in 0..=255u8 {
+        let _ = writeln!(out, "s bin {:02x}0001 (fb)", b);
+        let _ = writeln!(out, "s bin {:02x}00000000 (lb)", b);
+        let _ = writeln!(out, "s bin {:02x}00000000 (setb)", b);
+        let _ = writeln!(out, "s bin {:02x}0800000000 (mb)", b);
+        let _ = writeln!(out, "s bin 08{:02x}00000000 (mb)", b);
+        let _ = writeln!(out, "s bin {:02x}00000000 (read list)", b);          // empty container with that element type
+        let _ = writeln!(out, "s bin {:02x}0000000100 (read list)", b);        // one element
+        let _ = writeln!(out, "s cmp {:02x}02 (sb) (fb)", b);                   // all (delta, type) field header bytes
+        let _ = writeln!(out, "s cmp 15{:02x}02 (sb) (fb) (read i32) (fb)", b); // … after a field with id 1
+        let _ = writeln!(out, "s cmp {:02x}0500 (lb)", b);
+        let _ = writeln!(out, "s cmp {:02x}0500 (setb)", b);
+        let _ = writeln!(out, "s cmp 01{:02x}0000 (mb)", b);
+        let _ = writeln!(out, "s cmp {:02x}0000 (read list)", b);
+        let _ = writeln!(out, "s cmp {:02x} (read bool)", b);
+        let _ = writeln!(out, "s bin {:02x} (read bool)", b);
+    }
+    // ---- message envelopes: both directions
+    for p in protos { for (name, mt, seq) in [("", 1u8, 0i32), ("ping", 2, -1), ("a-rather-long-method-name", 4, i32::MIN), ("x", 3, i32::MAX), ("n", 1, 127), ("n", 2, 128), ("n", 3, 16384)] {
+        let _ = writeln!(out, "sm {} {} {} {}", p.name(), hex(name.as_bytes()), mt, seq);
+        if let Ok((b, _)) = thrift::write_msg(p, name.as_bytes(), mt, seq) { let _ = writeln!(out, "s {} {}ff (msg)", p.name(), hex(&b)); }
+    } }
+    for b in 0..=255u8 {
+        let _ = writeln!(out, "s bin 800100{:02x}0000000000000007 (msg)", b);      // type byte of the version word
+        let _ = writeln!(out, "s bin 80{:02x}00010000000000000007 (msg)", b);      // version bits
+        let _ = writeln!(out, "s cmp 82{:02x}0700 (msg)", b);                      // ttt vvvvv
+        let _ = writeln!(out, "s cmp {:02x}210700 (msg)", b);                      // protocol id
+    }
+    for h in ["00000004706963670000000001", "7fffffff", "80010001ffffffff", "8001000100000002", "8001000100000000"] { let _ = writeln!(out, "s bin {} (msg)", h); }
+    for h in ["8221ffffffff0f00", "8221808080808000", "822105", "8221050261"] { let _ = writeln!(out, "s cmp {} (msg)", h); }
+    // ---- TApplicationException
+    for p in protos { for (m, k) in [("", 0i32), ("boom", 6), ("general remote error", 1), ("x", -1), ("y", i32::MAX), ("z", i32::MIN)] {
+        let _ = writeln!(out, "axw {} {} {}", p.name(), hex(m.as_bytes()), k);
+        let v = Val::Struct(vec![(1, Val::Bin(m.as_bytes().to_vec())), (2, Val::I32(k))]);
+        for mut pol in [Choices::Canon, Choices::AllLong, Choices::Rand(Rng(r.next()))] { let _ = writeln!(out, "ax {} {}", p.name(), hex(&ref_encode(p, &v, &mut pol))); }
+        // field order swapped, fields missing, unknown fields (skipped), trailing bytes
+        let sw = Val::Struct(vec![(2, Val::I32(k)), (1, Val::Bin(m.as_bytes().to_vec()))]);
+        let _ = writeln!(out, "ax {} {}", p.name(), hex(&ref_encode(p, &sw, &mut Choices::Canon)));
+        let _ = writeln!(out, "ax {} {}", p.name(), hex(&ref_encode(p, &Val::Struct(vec![(2, Val::I32(k))]), &mut Choices::Canon)));
+        let _ = writeln!(out, "ax {} {}", p.name(), hex(&ref_encode(p, &Val::Struct(vec![]), &mut Choices::Canon)));
+        let unk = Val::Struct(vec![(1, Val::Bin(m.as_bytes().to_vec())), (3, Val::List(TT::I16, vec![Val::I16(7)])), (2, Val::I32(k)), (9, Val::Bool(true)), (10, Val::Struct(vec![(1, Val::Uuid([1; 16]))]))]);
+        let mut b = ref_encode(p, &unk, &mut Choices::Rand(Rng(r.next()))); b.extend([1, 2, 3]);
+        let _ = writeln!(out, "ax {} {}", p.name(), hex(&b));
+        let tr = ref_encode(p, &v, &mut Choices::Canon);
+        for cut in 0..tr.len() { let _ = writeln!(out, "ax {} {}", p.name(), hex(&tr[..cut])); }
+    } }
+    // ---- random value trees
+    for _ in 0..n(160, 5000) { let v = gen::gen_any(r, 5); emit_val(out, r, &v, 3); }
+}
+
 pub fn gen(stream: &str, tier: &str, seed: u64, out: &mut dyn Write) -> bool {
     let mut r = Rng(seed ^ 0x7133);
     let thorough = tier == "thorough";
@@ -704,6 +988,7 @@ pub fn gen(stream: &str, tier: &str, seed: u64, out: &mut dyn Write) -> bool {
             }
         }
         "C12" => gen_c12(&mut r, thorough, out),
+        "C03" => gen_c03(&mut r, thorough, out),
         _ => return false,
     }
     true
